@@ -497,7 +497,7 @@ func checkBytes(c BytesCase) error {
 var subBytes = vk.Register(&vk.Sub[BytesCase]{Name: "bytes_fuzz", Check: checkBytes})
 
 func FuzzSub_bytes_fuzz(f *testing.F) {
-	if b, err := os.ReadFile("/repo/io/fasta/data/base.fasta"); err == nil {
+	if b, err := os.ReadFile(vk.RepoPath("io/fasta/data/base.fasta")); err == nil {
 		f.Add(b)
 	}
 	f.Add([]byte(">a\nACGT\n>b\n\nAC\nGT\n"))
@@ -519,7 +519,8 @@ type CorpusCase struct {
 }
 
 func checkCorpus(c CorpusCase) error {
-	b, err := os.ReadFile(c.File)
+	path := vk.RepoPath(c.File)
+	b, err := os.ReadFile(path)
 	if err != nil {
 		return vk.Harnessf("%v", err)
 	}
@@ -534,10 +535,10 @@ func checkCorpus(c CorpusCase) error {
 			return vk.Harnessf("%v", err)
 		}
 		b = buf.Bytes()
-		if got, err = bounded("ReadGz", func() []fasta.Fasta { return fasta.ReadGz(c.File) }); err != nil {
+		if got, err = bounded("ReadGz", func() []fasta.Fasta { return fasta.ReadGz(path) }); err != nil {
 			return err
 		}
-	} else if got, err = bounded("Read", func() []fasta.Fasta { return fasta.Read(c.File) }); err != nil {
+	} else if got, err = bounded("Read", func() []fasta.Fasta { return fasta.Read(path) }); err != nil {
 		return err
 	}
 	want, ok := referenceParse(b)
@@ -551,9 +552,9 @@ var subCorpus = vk.Register(&vk.Sub[CorpusCase]{Name: "corpus", Check: checkCorp
 
 func TestSub_corpus(t *testing.T) {
 	vk.RunEnum(t, subCorpus, "io/fasta/data/base.fasta and uniprot_1mb_test.fasta.gz", true, func(yield func(CorpusCase) bool) {
-		if !yield(CorpusCase{File: "/repo/io/fasta/data/base.fasta"}) {
+		if !yield(CorpusCase{File: "io/fasta/data/base.fasta"}) {
 			return
 		}
-		yield(CorpusCase{File: "/repo/io/fasta/data/uniprot_1mb_test.fasta.gz", Gz: true})
+		yield(CorpusCase{File: "io/fasta/data/uniprot_1mb_test.fasta.gz", Gz: true})
 	})
 }
